@@ -22,7 +22,10 @@ VARIABLES gaps
 gvars == <<e, d, pred, last, fv, gaps>>
 
 \* "" removes whatever separates the two tokens
-GapTexts == {"", " ", "   ", "TAB", "/* c */", "/*c*/", " /* c\nd */ ", "NL", "CRLF", " # c NL", "// c NL", "NL NL"}
+AllGapTexts == {"", " ", "   ", "TAB", "/* c */", "/*c*/", " /* c\nd */ ", "NL", "CRLF", " # c NL", "// c NL", "NL NL"}
+\* BaseMode "spaced": the base is rendered with a blank between EVERY pair of tokens and the edits REMOVE
+\* blanks (any subset of up to MaxK boundaries): the layouts in which only some neighbours touch
+GapTexts == IF BaseMode = "spaced" THEN {""} ELSE AllGapTexts
 
 Gap(p, t) == [p |-> p, t |-> t]
 GapEdits == {Gap(p, t) : p \in 0..MaxPos, t \in GapTexts}
@@ -32,7 +35,12 @@ AllWraps(x) == WUn(x) \cup WArith(x) \cup WCmp(x) \cup WEq(x) \cup WLogic(x) \cu
 
 FewLeaves == {NVar("l"), NNum(2), StrLit("a")}
 MidLeaves == {NVar("l"), NNum(2), StrLit("a"), NVar("o"), NNull, NVar("m")}
-Bases == IF BaseMode = "few" THEN UNION {AllWraps(x) : x \in {NVar("l")}} \cup UNION {WUn(x) \cup WArith(x) \cup WTpl(x) : x \in {NNum(2), StrLit("a")}}
+SpacedBases == {NLegacy(NLegacy(NVar("t"), 0), 2), NLegacy(NAttr(NLegacy(NVar("lo"), 0), "a"), 0), NAttr(NNum(2), "a"), NLegacy(NNum(2), 0),
+                NBin("-", NNum(2), NUn("-", NNum(2))), NBin("-", NVar("n1"), NUn("-", NVar("n1"))), NUn("-", NUn("-", NNum(2))), NUn("!", NUn("!", NVar("b"))),
+                NIndex(NLegacy(NVar("t"), 0), NNum(0)), NSplat("attr", NVar("lo"), NLegacy(NAttr(NAnon, "a"), 0)),
+                NCall("ns::id", FALSE, <<NUn("-", NNum(2))>>), NCond(NVar("b"), NUn("-", NNum(2)), NLegacy(NVar("t"), 0))}
+Bases == IF BaseMode = "spaced" THEN SpacedBases
+         ELSE IF BaseMode = "few" THEN UNION {AllWraps(x) : x \in {NVar("l")}} \cup UNION {WUn(x) \cup WArith(x) \cup WTpl(x) : x \in {NNum(2), StrLit("a")}}
          ELSE IF BaseMode = "mid" THEN UNION {AllWraps(x) : x \in MidLeaves}
          ELSE UNION {AllWraps(x) : x \in Leaves}
 
